@@ -162,6 +162,7 @@ class Check:
         findings = load_known_findings()
         violations, known, drift, foreign = [], {}, 0, 0
         skipped = 0
+        drift_clauses = {}
         for i, e in enumerate(allev):
             failing = verdicts[i + 1]
             if failing == ["skipped.range"]:
@@ -178,6 +179,9 @@ class Check:
             mine = [c for c in failing if c.startswith(own)]
             if any(c.startswith("impl.") for c in failing):
                 drift += 1
+                for c in failing:
+                    if c.startswith("impl."):
+                        drift_clauses[c] = drift_clauses.get(c, 0) + 1
             if any((not c.startswith(own)) and not c.startswith("impl.") for c in failing):
                 foreign += 1
             unexplained = []
@@ -210,7 +214,7 @@ class Check:
                "traces_validated_against_impl": len(self.events),
                "samples": smp, "evaluations": len(self.events), "distinct_nontrivial": len(self.nontrivial),
                "rule": self.rule, "model_runs": self.model_runs, "negative_controls_rejected": len(self.negs), "negative_controls_skipped_no_source_event": getattr(self, "neg_skipped", 0),
-               "drift_events": drift, "events_outside_judge_arithmetic_range": skipped, "events_failing_only_other_properties_clauses": foreign,
+               "drift_events": drift, "drift_clauses": drift_clauses, "events_outside_judge_arithmetic_range": skipped, "events_failing_only_other_properties_clauses": foreign,
                "known_finding_cases": {k: v[1] for k, v in known.items()},
                "trace_validation_wall_s": round(self.tlc_trace_wall, 1)}
         if exhaustive is not None:
